@@ -310,6 +310,55 @@ ESTIMATOR_CLASSES = ["triad.py::TRIAD", "davenport.py::Davenport", "quest.py::QU
                      "fqa.py::FQA", "tilt.py::Tilt", "aqua.py::AQUA"]
 
 
+def am2q_route(chk, prog):
+    """AM2Q: the acc/mag helper am2q is dcm2quat(am2DCM(a, m)).  (i) am2DCM returns a proper rotation whose third column/row is the normalised
+    gravity measurement (AVN); (ii) dcm2quat returns, on EVERY decision path (trace test, pivot selection ...), a quaternion whose matrix is the
+    input in one and the same direction -- a branch that answers with the conjugate flips the attitude for the rotations that reach it."""
+    from sa.lib import enumerate_paths
+    ORI_ = "ahrs/common/orientation.py"
+    f = prog.func(ORI_ + "::dcm2quat")
+    chk.touch(f)
+    q = unit_syms("dq")
+    R = E_ref(q)
+    kw = dict(module=ORI_, function="dcm2quat", line=f.node.lineno)
+
+    def run(oracle):
+        return Interp(prog, oracle=oracle).run(f, [R.copy()])
+    paths = enumerate_paths(run)
+    direction = None
+    for decisions, res in paths:
+        label = ", ".join("%s->%s" % (("argmax" if c.op == "argmax" else "%s %s %s" % (str(c.lhs)[:24], c.op, c.rhs)), a_) for c, a_ in decisions) or "unconditional"
+
+        def law(res=res, label=label):
+            nonlocal direction
+            if isinstance(res, Exception):
+                raise res
+            out = to_obj(res)
+            n2 = sum((x * x for x in out), P.ZERO)
+            Eo = E_ref(out)          # E_ref is quadratic: E(out) == |out|^2 E(out/|out|)
+            a_ = eq(Eo, R * n2, "E(dcm2quat(R)) [path %s]" % label)
+            b_ = eq(Eo, R.T * n2, "E(dcm2quat(R))^T [path %s]" % label)
+            ok_a, ok_b = a_ is True, b_ is True
+            if not (ok_a or ok_b):
+                return a_
+            d = "R" if ok_a else "R^T"
+            if direction is None:
+                direction = d
+                return True
+            if d != direction:
+                return (False, "on the path [%s] dcm2quat returns the quaternion of %s while its other paths return that of %s: the attitude is conjugated for the rotations taking this path"
+                        % (label, d, direction), None)
+            return True
+        chk.ob("AM2Q.dcm2quat", f.ref + "::path " + label, "E(dcm2quat(R)) is R in the same direction on every path [%s]" % label, law, construct="direction on path [%s]" % label, **kw)
+    g = prog.func(ORI_ + "::am2q")
+    chk.touch(g)
+    calls = [ast.unparse(c.func) for c in ast.walk(g.node) if isinstance(c, ast.Call)]
+    if "am2DCM" in calls and "dcm2quat" in calls:
+        chk.record("AM2Q.route", g.ref, "am2q == dcm2quat(am2DCM(a, m, frame))")
+    else:
+        chk.error("AM2Q: am2q no longer composes am2DCM and dcm2quat (anchor changed): %s" % calls)
+
+
 def pose_div(chk, prog):
     """POSE-DIV: the singularity-free estimator (Tilt, scalar and batch copy) divides only by the norms of its samples and by literals:
     any other divisor is a pose-dependent quantity that vanishes for some attitude (the documented selling point is that none does)."""
@@ -408,6 +457,7 @@ def run(chk, prog, tier):
     flow_rule(chk, prog)
     stale_cache(chk, prog)
     pose_div(chk, prog)
+    am2q_route(chk, prog)
     if arm_guard(chk, prog, F + "aqua.py::AQUA.estimate") < 6:
         chk.error("ARM-GUARD: fewer than 6 guarded divisors found in AQUA.estimate (two two-armed formulas confirmed by hand)")
     chk.require_count("OLEQ.fixed", 2)
